@@ -51,6 +51,17 @@ Definition cse_members_entry (args : list sx) : sx :=
   | _ => bad_args
   end.
 
+(* _evaluate_range of a CSE range of size h x w *)
+Definition range_value_entry (args : list sx) : sx :=
+  match args with
+  | [SZ h; SZ w; a] =>
+      match dec_val a with
+      | Some v => enc_res (cse_range_value h w v)
+      | None => bad_args
+      end
+  | _ => bad_args
+  end.
+
 (* the sheet side: [row; col; i; j; h; w; start_col; start_row; end_col; end_row] per member *)
 Definition load_members_entry (args : list sx) : sx :=
   match args with
@@ -100,6 +111,7 @@ Definition table : list entry :=
   ; E "target_cells" cse_members_entry
   ; E "load_members" load_members_entry
   ; E "range_formula" range_formula_entry
+  ; E "range_value" range_value_entry
   ].
 
 Definition dispatch (name : list Z) (args : list sx) : sx :=
